@@ -170,6 +170,14 @@ def direct_case(fails, iso, j, ai, inp, rest, o, rng, full):
     o2 = one_row(iso, ai, mass * k, env, expo, rest)
     if isinstance(o2, BaseException) or o2 is None or not all(close(k * a, b, 1e-12, amp=k) for a, b in zip(vals, o2)):
         fails.add("C14:not-linear-in-mass", "activity at %g x mass is %r, expected %g x %r" % (k, o2, k, vals), factor=k, **where)
+    # the environment is what its attributes say when activity() is called: one built with other values and then
+    # set to these gives the same activities
+    env_b = act.ActivationEnvironment(flu * 3, rng.choice([0.0, 20.0, cd + 5]), fast + 2)
+    env_b.fluence, env_b.Cd_ratio, env_b.fast_ratio = flu, cd, fast
+    o5 = one_row(iso, ai, mass, env_b, expo, rest)
+    if isinstance(o5, BaseException) or o5 is None or [float(v) for v in o5] != vals:
+        fails.add("C14:environment-set-after-construction", "an ActivationEnvironment built with other values and then assigned "
+                  "fluence=%r, Cd_ratio=%r, fast_ratio=%r gives %r, one built with these values gives %r" % (flu, cd, fast, o5, vals), **where)
     # epithermal omitted below Cd ratio 1
     if cd < 1:
         for cd2 in (0.5, 0.999):
